@@ -199,6 +199,8 @@ def match_known(cand, known):
             continue
         if m.get("site") and (cand.get("site") or "") != m["site"]:
             continue
+        if m.get("site_suffix") and not (cand.get("site") or "").endswith(m["site_suffix"]):
+            continue
         return k
     return None
 
